@@ -212,8 +212,11 @@ def run(F, rep, rid, kinds=None):
         n += 1
         if how == 'fail':
             f, deref, src = seen[key + '@']
-            if key in inv:
-                rep.exempt(rid, key, inv[key])
+            # the invariant is about the lookup, not about the name of the local that holds its result
+            parts = key.split('|')
+            alt = '|'.join(parts[:2] + [render(src)[:50]] + parts[3:])
+            if key in inv or alt in inv:
+                rep.exempt(rid, key, inv.get(key) or inv[alt])
             else:
                 rep.fail(rid, key, f.where(deref), '`%s` can be null (%s) and is dereferenced as `%s` without a test' % (render(src)[:50], key.split('|')[1], render(f.parent(deref) or deref)[:60]))
         else:
